@@ -26,7 +26,7 @@ pub fn run(ctx: &Ctx) -> i32 {
         Finish {
             rule: "request = version in all five http::Version constants x Host header (absent / name, IPv4 or bracketed IPv6 literal, random letter case, optional port) x URI authority (absent / same domain) x TLS info (present 90%) x server name (absent / equal / equal modulo case / different), sent through the public ValidateSNI layer around a recording inner service; outcome (forwarded + validated flag / rejected) compared with a reference predicate written from the statement. non-trivial = TLS info present and a host named (the property constrains the outcome); distinct by hash of the case".into(),
             assumptions: vec!["server names are DNS names or bare IPv4 literals as reported by a TLS stack (never bracketed)".into()],
-            min_class_fraction: vec![("expect-forward", 0.15), ("expect-reject", 0.15), ("h2-host-fallback", 0.02), ("case-differs", 0.05)],
+            min_class_fraction: vec![("expect-forward", 0.15), ("expect-reject", 0.15), ("h2-host-fallback", 0.02), ("case-differs", 0.035)],
         },
     )
 }
